@@ -39,7 +39,7 @@ EVIDENCE = dict(
                 'against the real commands on file / packed file / dict / fake-redis stores + an independent Python oracle',
 )
 
-BACKENDS = ('file', 'dict', 'filepack', 'redis')
+BACKENDS = ('file', 'dict', 'filepack', 'redis', 'keepalive')
 CATS = ('CFailed', 'Waiting', 'Ready', 'Complete', 'Active')          # the order of the printed columns
 
 
@@ -52,6 +52,7 @@ class HarnessError(RuntimeError):
 # says "Could not build dependency graph! ... A common error is to build a Task with a mutable argument and
 # subsequently modifying." - exit 1, no table, no cache.  That refusal is the EXPECTED behaviour of the cached mode
 # on such jugfiles (the code's documented precondition), it is modelled (load_jugfile = None) and compared.
+D27_CLASS = 'cache_ignores_jugfile_store'
 REFUSED = 'cached status must refuse exactly the jugfiles whose tasks are not created in dependency order'
 
 
@@ -274,30 +275,31 @@ def run_history(spec, backend, root, rng, short):
         if short:
             code, out, err = call_main(['status', env.jugfile, '--short'] + base)
             o['short'] = {'exit': code, 'line': parse_short(out), 'text': out[-300:]}
-        if env.setdir:
-            # not compared: in update mode the cached command never loads the jugfile and reads the --jugdir store
-            # (backends.select(options.jugdir)), not the one the jugfile selected - see the report
-            o['cached'] = {'exit': None, 'table': None, 'text': '', 'err': '', 'refused': False, 'skipped': True}
+        code, out, err = call_main(['status', env.jugfile, '--cache', '--cache-file', cache_file] + base)
+        o['cached'] = {'exit': code, 'table': parse_table(out), 'text': out[-1500:], 'err': err[-300:],
+                       'refused': (code == 1 and 'Could not build dependency graph' in err), 'skipped': False}
+        try:
+            o['db'] = read_cache(cache_file)
+        except Exception as ex:
             o['db'] = None
+            o['db_error'] = '%s: %s' % (type(ex).__name__, str(ex)[:200])
+        # the store that --jugdir names: the tasks' store, unless the jugfile selects its own (then a decoy directory)
+        if env.setdir:
+            dec = G.file_store(env.jugdir_arg())
+            o['arg_stored'] = sorted(set(G.hx(k) for k in dec.list()))
+            o['arg_locks'] = sorted((G.hx(k), 'failed' if dec.getlock(k).is_failed() else 'held') for k in set(dec.listlocks()))
         else:
-            code, out, err = call_main(['status', env.jugfile, '--cache', '--cache-file', cache_file] + base)
-            o['cached'] = {'exit': code, 'table': parse_table(out), 'text': out[-1500:], 'err': err[-300:],
-                           'refused': (code == 1 and 'Could not build dependency graph' in err), 'skipped': False}
-            try:
-                o['db'] = read_cache(cache_file)
-            except Exception as ex:
-                o['db'] = None
-                o['db_error'] = '%s: %s' % (type(ex).__name__, str(ex)[:200])
+            o['arg_stored'], o['arg_locks'] = o['stored'], o['locks']
         code, out, err = call_main(['check', env.jugfile] + base)
         o['check'] = code
         o['store_changed'] = (env.raw() != before)
         steps.append(o)
-    if backend in ('file', 'filepack'):
+    if backend in G.FILE_BACKENDS:
         shutil.rmtree(env.jd, ignore_errors=True)
     return info, otasks, h_of, steps
 
 
-def oracle(info, otasks, h_of, steps):
+def oracle(info, otasks, h_of, steps, setdir=False):
     bad = []
     # created in dependency order, judged on the generator's own (syntactic) dependencies
     seen, in_order = set(), True
@@ -309,8 +311,8 @@ def oracle(info, otasks, h_of, steps):
         stored, locks = set(o['stored']), dict(o['locks'])
         rows, total = spec_tables(otasks, h_of, stored, locks)
         for mode in ('plain', 'cached'):
-            if mode == 'cached' and o['cached']['skipped']:
-                continue
+            if mode == 'cached' and setdir:
+                continue                      # judged in coqc against cached_call_dirs; disagreement with the plain table = D27
             t = o[mode]['table']
             if mode == 'cached' and (o['cached']['refused'] or not in_order):
                 if not (o['cached']['refused'] and not in_order):
@@ -329,7 +331,7 @@ def oracle(info, otasks, h_of, steps):
                 bad.append(('%s status Total row at call %d' % (mode, k), total, t[1]))
             if o[mode]['exit'] != total[3]:
                 bad.append(('%s status exit code at call %d' % (mode, k), total[3], o[mode]['exit']))
-        if in_order and o['plain']['table'] is not None and o['cached']['table'] is not None and o['plain']['table'] != o['cached']['table']:
+        if in_order and not setdir and o['plain']['table'] is not None and o['cached']['table'] is not None and o['plain']['table'] != o['cached']['table']:
             bad.append(('cached = uncached at call %d' % k, o['plain']['table'], o['cached']['table']))
         if 'short' in o:
             exp = (total[1] + total[2], total[0], total[3], total[4])
@@ -366,20 +368,23 @@ Definition centry_eqb (a b : centry) : bool :=
   ostat_eqb (ce_status a) (ce_status b) && list_eqb Nat.eqb (ce_deps a) (ce_deps b).
 (* one state of the history: stored keys, locks, plain table, cached call (None: it exited 1 with
    "Could not build dependency graph!", else its table and the cache file afterwards; outer None: the
-   cached command was not run at this state), check *)
-Definition step := (list tid * list (tid * lockst) * table * option (option (table * cache_db)) * nat)%type.
+   cached command was not run at this state), check.  Third component: results and locks of the store that
+   --jugdir names (the same as the first two unless the jugfile selects its store with jug.set_jugdir) *)
+Definition step := (list tid * list (tid * lockst) * (list tid * list (tid * lockst)) * table *
+                   option (option (table * cache_db)) * nat)%type.
 Fixpoint run_hist (d : dag) (file : option cache_db) (h : list step) : bool :=
   match h with
   | [] => true
-  | (stl, lkl, plain, cobs, chk) :: r =>
+  | (stl, lkl, argst, plain, cobs, chk) :: r =>
       let st := st_of stl in
       let lk := lk_of lkl in
+      let arg := (st_of (fst argst), lk_of (snd argst)) in
       check_table d (status_events d st lk) plain &&
       Nat.eqb (check d st) chk &&
       match cobs with
       | None => run_hist d file r
       | Some co =>
-          match cached_call d file st lk, co with
+          match cached_call_dirs d file (st, lk) arg, co with
           | None, None => run_hist d file r
           | Some (ev, db'), Some (cached, db_obs) =>
               check_table d ev cached && list_eqb centry_eqb db' db_obs && run_hist d (Some db') r
@@ -442,7 +447,9 @@ def case_lit(info, steps):
                                 for n, h, s, dl in o['db']) + ']'
             cobs = '(Some (Some (%s, %s)))' % (c, db)
         lk = '[' + ';'.join('(%d,%s)' % (hid(h), 'Failed' if v == 'failed' else 'Held') for h, v in o['locks']) + ']'
-        lits.append('(%s, %s, %s, %s, %s)' % (plist(hid(h) for h in o['stored']), lk, p, cobs, natlit(o['check'])))
+        alk = '[' + ';'.join('(%d,%s)' % (hid(h), 'Failed' if v == 'failed' else 'Held') for h, v in o['arg_locks']) + ']'
+        lits.append('(%s, %s, (%s, %s), %s, %s, %s)' % (plist(hid(h) for h in o['stored']), lk,
+                                                        plist(hid(h) for h in o['arg_stored']), alk, p, cobs, natlit(o['check'])))
     return '(%s, [%s])' % (dag, ';\n   '.join(lits)), ids, nids
 
 
@@ -453,7 +460,7 @@ def summarize(steps):
         s = {'stored': o['stored'], 'locks': o['locks'], 'check': o['check'],
              'plain': {'exit': o['plain']['exit'], 'table': o['plain']['table']},
              'cached': {'exit': o['cached']['exit'], 'table': o['cached']['table'], 'refused': o['cached']['refused'], 'skipped': o['cached']['skipped']}, 'db': o['db'],
-             'packed': o['packed'], 'none_stored': o['none_stored']}
+             'packed': o['packed'], 'none_stored': o['none_stored'], 'arg_stored': o['arg_stored'], 'arg_locks': o['arg_locks']}
         if 'short' in o:
             s['short'] = o['short']
         out.append(s)
@@ -478,7 +485,7 @@ def run(ck):
         os.environ['HOME'] = root
         try:
             for i in range(N):
-                backend = BACKENDS[i % 4]
+                backend = BACKENDS[i % len(BACKENDS)]
                 size = rng.choice([1, 3, 4, 5, 6, 7, 8, 10] if ck.tier == 'quick' else [1, 3, 5, 6, 8, 10, 12, 14])
                 spec = G.Gen(rng, size).gen()
                 short = (i % 5 == 4)
@@ -491,7 +498,7 @@ def run(ck):
                     jugrun.fresh()
                 meta = {'spec': spec, 'backend': backend, 'short': short, 'graph': info,
                         'history': [[o['stored'], o['locks']] for o in steps], 'observed': summarize(steps)}
-                for clause, exp, got in oracle(info, otasks, h_of, steps):
+                for clause, exp, got in oracle(info, otasks, h_of, steps, bool(spec.get('setdir'))):
                     ck.violation({'kind': 'impl-violation', 'what': 'status/check on %s: %s' % (backend, re.sub(r' at call \d+', '', clause)),
                                   'clause': clause, 'expected': exp, 'observed_value': got, **meta})
                 lit, ids, nids = case_lit(info, steps)
@@ -499,6 +506,10 @@ def run(ck):
                     ck.violation({'kind': 'impl-violation', 'what': 'status/check on %s: output not understood' % backend, **meta})
                     continue
                 meta['interning'] = {'hashes': ids, 'names': nids}
+                # candidate for known finding D27: the jugfile selects its store and some cached table differs from the plain one
+                meta['cached_differs'] = bool(spec.get('setdir')) and any(
+                    o['plain']['table'] is not None and o['cached']['table'] is not None and o['plain']['table'] != o['cached']['table']
+                    for o in steps)
                 cases.append(lit)
                 metas.append(meta)
                 ncols = 0
@@ -518,7 +529,7 @@ def run(ck):
                 ck.distinct(lit, ncols >= 3)
                 ck.count('backend:%s' % backend)
                 if spec.get('setdir'):
-                    ck.count('jugfile selects its store with jug.set_jugdir (--jugdir names another location; cached call not run)')
+                    ck.count('jugfile selects its store with jug.set_jugdir (--jugdir names another location)')
                 for o in steps:
                     if o['packed']:
                         ck.count('state packed by %s' % o['packed'])
@@ -552,6 +563,15 @@ def run(ck):
         m = metas[i]
         ck.violation({'kind': 'correspondence', 'what': 'status/check on %s: model and jug disagree' % m['backend'],
                       'coq_case': cases[i], **m})
+    if fails is not None:
+        # D27 (known finding): cached != uncached on a jugfile that selects its store.  Classified as that finding ONLY when
+        # coqc has just confirmed the exact mechanism on this history: every plain table = model on the store the tasks use,
+        # every cached table and the cache file = cached_call_dirs, i.e. the model reading the store --jugdir names.
+        for i, m in enumerate(metas):
+            if m.get('cached_differs') and i not in fails:
+                ck.count('D27: cached table differs from the plain one, mechanism confirmed in coqc')
+                ck.violation({'kind': 'impl-violation', 'class': D27_CLASS,
+                              'what': 'cached status reads the --jugdir store, not the store the jugfile selected', **m})
 
 
 # ---------------------------------------------------------------------------- replay
@@ -588,7 +608,7 @@ def replay(obj):
         print('   cached (Failed, Waiting, Ready, Complete, Active):', o['cached']['table'], 'exit', o['cached']['exit'])
         print('   check exit', o['check'], ' cache rows', [(s, dl) for _, _, s, dl in (o['db'] or [])],
               ' CACHED STATUS EXITED 1 (could not build dependency graph)' if o['cached']['refused'] else '')
-    bad = oracle(info, otasks, h_of, steps)
+    bad = oracle(info, otasks, h_of, steps, bool(spec.get('setdir')))
     for clause, exp, got in bad:
         print('VIOLATED %s: expected %s observed %s' % (clause, exp, got))
     rc = 1 if bad else 0
